@@ -6,6 +6,7 @@ import Jrpc.Oracle.C02
 import Jrpc.Oracle.C13
 import Jrpc.Oracle.C03
 import Jrpc.Oracle.C06
+import Jrpc.Oracle.C09
 /-! The model oracle: one line in, one line out. First token selects the sub-command. -/
 open Jrpc.Oracle
 
@@ -22,6 +23,7 @@ def dispatch (line : String) : String :=
   | "c03" :: r => C03.handle r
   | "c06" :: r => C06.handleSem r
   | "c07" :: r => C06.handleIds r
+  | "c09" :: r => C09.handle r
   | _ => "bad-op"
 
 partial def loop (h : IO.FS.Stream) (out : IO.FS.Stream) : IO Unit := do
